@@ -15,17 +15,17 @@ func init() { streams["c07"] = streamC07 }
 
 // tagBackend: one listener per tunnel; logs accepts and bytes; writes its own stream.
 type tagBackend struct {
-	l       net.Listener
-	addr    string
-	mu      sync.Mutex
-	accepts int
-	got     []byte
-	sends   []byte
-	eof     bool
-	conns   []net.Conn
-	pace    time.Duration // pause between the backend's writes
-	piece   int           // bytes per write (0: 1000)
-	eofs    int           // connections that saw the end of their stream
+	l          net.Listener
+	addr       string
+	mu         sync.Mutex
+	accepts    int
+	got        []byte
+	sends      []byte
+	eof        bool
+	conns      []net.Conn
+	pace       time.Duration // pause between the backend's writes
+	piece      int           // bytes per write (0: 1000)
+	eofs       int           // connections that saw the end of their stream
 	slowReader time.Duration // pause after every read (a host that drains its socket slowly)
 }
 
@@ -484,7 +484,9 @@ func streamC07(env *runEnv) {
 	inAgainCases(env, srv)
 }
 
-func init() { streams["c01gw"] = func(env *runEnv) { srv := newL2Server(true, 0); defer srv.close(); inAgainCases(env, srv) } }
+func init() {
+	streams["c01gw"] = func(env *runEnv) { srv := newL2Server(true, 0); defer srv.close(); inAgainCases(env, srv) }
+}
 
 func inAgainCases(env *runEnv, srv *l2server) {
 	// a websocket request that carries the connection id of a live legacy tunnel starts from the beginning:
@@ -589,7 +591,10 @@ func inAgainCases(env *runEnv, srv *l2server) {
 		obs := "setup-failed"
 		l, err := legacyDial(srv.inst, id, nil)
 		if err == nil {
-			send := func(c net.Conn, p []byte) { c.Write([]byte(fmt.Sprintf("%x\r\n%s\r\n", len(p), p))); time.Sleep(15 * time.Millisecond) }
+			send := func(c net.Conn, p []byte) {
+				c.Write([]byte(fmt.Sprintf("%x\r\n%s\r\n", len(p), p)))
+				time.Sleep(15 * time.Millisecond)
+			}
 			send(l.in, packet(ptHandshake, handshakeBody(1, 0, 0, 2)))
 			l.recv(2 * time.Second)
 			switch ending {
